@@ -3,7 +3,8 @@
 from hypothesis import strategies as st
 
 from tv.core import Result
-from tv.cyc import Harness, history, step
+from tv.cyc import Harness, step
+from tv.queues import capped_history
 
 ID = "C14"
 RULE = (
@@ -38,7 +39,15 @@ def strategy(draw, tier="quick"):
     if second:
         methods[second + "_b"] = list(methods[second])
     hi = 60 if tier == "quick" else 200
-    hist = draw(history(methods, 5, hi))
+    # clear is kept rare (weight <= 1 of 8 per segment) and fill / steady-state / drain profiles are frequent, so that the
+    # pointers really travel around the ring several times between two clears
+    profiles = [
+        {"write": 7, "read": 1, "peek": 6, "read_b": 1, "write_b": 5},
+        {"write": 8, "read": 8, "peek": 8, "read_b": 8, "write_b": 8},
+        {"write": 1, "read": 6, "peek": 6, "read_b": 5, "write_b": 1},
+        {"write": 6, "read": 5, "peek": 4, "clear": 1, "read_b": 4, "write_b": 4},
+    ]
+    hist = draw(capped_history(methods, 5, hi, caps={"clear": 1}, profiles=profiles))
     return {"kind": kind, "depth": depth, "widths": widths, "second": second, "history": hist}
 
 
@@ -138,6 +147,7 @@ def run_case(case) -> Result:
             if c_acc:
                 q.clear()
                 qcyc.clear()
+                written = 0  # the pointers restart, too
 
     h.run(tb)
     for k, v in flags.items():
